@@ -50,6 +50,10 @@ func (d *Data) MergeLabels(v dvid.VersionID, op labels.MergeOp, info dvid.ModInf
 	}
 	dvid.Debugf("Merging %s into label %d ...\n", op.Merged, op.Target)
 
+	// Label index read-modify-write must not interleave with other label mutations.
+	d.voxelMu.Lock()
+	defer d.voxelMu.Unlock()
+
 	d.StartUpdate()
 	defer d.StopUpdate()
 
@@ -204,6 +208,10 @@ func (d *Data) MergeLabels(v dvid.VersionID, op labels.MergeOp, info dvid.ModInf
 //
 // labels.MergeEndEvent occurs at end of merge and transmits labels.DeltaMergeEnd struct.
 func (d *Data) RenumberLabels(v dvid.VersionID, origLabel, newLabel uint64, info dvid.ModInfo) (mutID uint64, err error) {
+	// Label index read-modify-write must not interleave with other label mutations.
+	d.voxelMu.Lock()
+	defer d.voxelMu.Unlock()
+
 	var isPresent bool
 	isPresent, err = d.labelIndexExists(v, newLabel)
 	if err != nil {
@@ -346,6 +354,10 @@ func (d *Data) CleaveLabel(v dvid.VersionID, label uint64, info dvid.ModInfo, r 
 		err = fmt.Errorf("no cleave supervoxels JSON was POSTed")
 		return
 	}
+
+	// Label index read-modify-write must not interleave with other label mutations.
+	d.voxelMu.Lock()
+	defer d.voxelMu.Unlock()
 
 	cleaveLabel, err = d.newLabel(v)
 	if err != nil {
